@@ -11,6 +11,7 @@ def step (_ : Unit) (toks : List String) : Unit × String :=
   | ["aesmode", m] => ((), "aesmode " ++ m)
   | ["hooktest", m] => ((), "hooktest " ++ m)
   | ["aeskey", _] => ((), "freed zero")
+  | ["aeskeybad", _, _] => ((), "ok")
   | "aesctr" :: _ :: _ :: _ :: _ => ((), "freed zero")
   | ["dh", _, _, _, _] => ((), "clean")
   | ["readkeys", _, _] => ((), "clean")
